@@ -245,7 +245,16 @@ def run(ctx, for_simplifier=False):
     from ..tables import T0, T1
     ctx.rule("R01.1", "update_expr_children rebuilds the same operator with the same attributes over the rewritten children in the same positions (shared with C01)")
     t0 = T0(ctx)
-    c01.r011(ctx, t0, T1(ctx, t0))
+    t1 = T1(ctx, t0)
+    c01.r011(ctx, t0, t1)
+    # "simplifying all expressions of a system yields .. equivalent" functions: the rewrite rules themselves are part of this property;
+    # the structural clauses C01 decides about them (casts, dispatcher plumbing, sibling branches, width preservation) are re-evaluated here
+    ctx.rule("R01.2", "every narrowing integer cast in expr::simplify is dominated by a range comparison of its source, or its source provably fits (shared with C01)")
+    ctx.rule("R01.3", "the rule dispatcher passes attribute fields of the matched node to the like-named parameter of the rule function and the children in slice order (shared with C01)")
+    c01.r012(ctx)
+    c01.r013(ctx, t0, t1)
+    c01.r014(ctx)
+    c01.r015(ctx)
 
 
 def fmt(key):
@@ -426,6 +435,33 @@ def do_transform(ctx):
             if disp is not None:
                 body = disp.get(v, disp.get("other"))
             t = tail_value(body) if body is not None else {}
+            if disp is None and t.get("k") not in ("call", "index"):
+                # the closure decides by early return / on a flag computed from the mode: the exit that is taken in mode v
+                leaves = []
+                exits = [(x["e"], x) for x in walk(cl["body"]) if x.get("k") == "return" and "e" in x] + [(cl["body"], None)]
+                for e_, node_ in exits:
+                    pre = norm.path_conditions(ix, node_, upto=cl, arms=True) if node_ is not None else []
+                    for cs_, lf in norm.result_table(ix, e_, unwrap=()):
+                        leaves.append((pre + cs_, lf))
+
+                def holds(c_, pol, depth=0):
+                    m_ = mode_holds(c_, pol, v)
+                    if m_ is not None:
+                        return m_
+                    c0 = peel(c_) if c_.get("k") not in ("armpat", "letexpr") else c_
+                    if c0.get("k") == "unary" and c0.get("op") == "!":
+                        h_ = holds(c0["e"], not pol, depth + 1)
+                        return h_
+                    if c0.get("k") in ("local", "match", "if", "blockexpr") and depth < 3:
+                        for acs, av in norm.value_alternatives(c0):
+                            av = peel(av)
+                            if av.get("k") == "lit" and isinstance(av.get("v"), bool) and acs and all(holds(a_, p_, depth + 1) is True for a_, p_ in acs):
+                                return av["v"] == pol
+                    return None
+                taken = [lf for cs_, lf in leaves if all(holds(c_, pol) is True for c_, pol in cs_)]
+                undecided = [lf for cs_, lf in leaves if any(holds(c_, pol) is None for c_, pol in cs_)]
+                if len(taken) == 1 and not undecided:
+                    t = tail_value(taken[0])
             if v == "FixedPoint":
                 good = t.get("k") == "call" and callee(t) == GET_FIXED_POINT and is_local(t["args"][0], tmap) and pb is not None and is_local(t["args"][1], pb[1])
             else:
